@@ -448,12 +448,13 @@ CHECKS = [
     ("w9lam", "checkLamBlock icrp107 ln2Lo ln2Hi lamRel"),
     ("w9mass", "checkMassBlock icrp107 massRel"),
     ("wread", "checkReadableBlock icrp107"),
+    ("wdiag", "checkDiagramBlock icrp107"),
 ]
 OBL_FILES = 13
 
 
 HEAVY = {"w1": 1.0, "w2": 0.15, "w9agg": 3.0, "w9": 0.2, "w5": 0.1, "w47": 0.15, "w3": 0.03, "wpar": 0.03,
-         "w9lam": 0.03, "w9mass": 0.03, "w6": 0.03, "wread": 0.03}
+         "w9lam": 0.03, "w9mass": 0.03, "w6": 0.03, "wread": 0.03, "wdiag": 0.3}
 
 
 def emit_obligations(nb: int, block_cost=None):
@@ -464,7 +465,7 @@ def emit_obligations(nb: int, block_cost=None):
     block_cost = block_cost or [1] * nb
     total = sum(block_cost)
     for pre, expr in CHECKS:
-        imp = "import RdVerif.Model.DatasetBounds" + ("\nimport RdVerif.Model.Queries" if pre == "wread" else "")
+        imp = "import RdVerif.Model.DatasetBounds" + ("\nimport RdVerif.Model.Queries" if pre == "wread" else "") + ("\nimport RdVerif.Model.Diagram" if pre == "wdiag" else "")
         mods = []
         # pack: budget = 1/12 of the total cost, scaled by how heavy this check is
         budget = total / 12 / max(HEAVY.get(pre, 0.1), 0.01) / 3
